@@ -1845,7 +1845,7 @@ class CodeGenerator(NodeVisitor):
         if isinstance(node.arg, nodes.Slice):
             self.visit(node.node, frame)
             self.write("[")
-            self.visit(node.arg, frame)
+            self.visit_Slice(node.arg, frame, subscript=True)
             self.write("]")
         else:
             if self.environment.is_async:
@@ -1860,7 +1860,23 @@ class CodeGenerator(NodeVisitor):
             if self.environment.is_async:
                 self.write("))")
 
-    def visit_Slice(self, node: nodes.Slice, frame: Frame) -> None:
+    def visit_Slice(
+        self, node: nodes.Slice, frame: Frame, subscript: bool = False
+    ) -> None:
+        if not subscript:
+            # A slice that is an item of a tuple subscript, x[a:b, c]. The
+            # tuple is written with parentheses, where a:b is not valid.
+            self.write("slice(")
+            for idx, part in enumerate((node.start, node.stop, node.step)):
+                if idx:
+                    self.write(", ")
+                if part is None:
+                    self.write("None")
+                else:
+                    self.visit(part, frame)
+            self.write(")")
+            return
+
         if node.start is not None:
             self.visit(node.start, frame)
         self.write(":")
